@@ -16,9 +16,9 @@ import lib_comp as L
 PROPERTY = "C17"
 FN = "maltoolbox.language.compiler:MalCompiler.compile"
 SCOPE = {
-    "quick": "12 valid sources (a hand-written one using every construct, the resolvable two-category mini language, "
-             "10 seeded random specifications; 5 of them split over a root and 1-2 included files in the same "
-             "directory) x every single-token deletion, 6 random token insertions (46-token vocabulary incl. reserved "
+    "quick": "10 valid sources (a hand-written one using every construct, the resolvable two-category mini language, "
+             "8 seeded random specifications; 4 of them split over a root and 1-2 included files in the same "
+             "directory) x every single-token deletion, 4 random token insertions (46-token vocabulary incl. reserved "
              "words, brackets, an illegal character, an unterminated string) before every token, truncation after and "
              "inside every token, a reserved word in place of every identifier, every brace / bracket / parenthesis "
              "dropped, doubled or flipped -- in the root file and in every included file; a mutant counts only when "
@@ -71,7 +71,7 @@ def base_sources(tier, seed):
     out.append(("mini-1file", L.layout_files(decls, L.make_layout("single", len(decls), 0))))
     out.append(("mini-chain", L.layout_files(decls, L.make_layout("chain", len(decls), 5))))
     rnd = random.Random(seed)
-    n = 40 if tier == "thorough" else 10
+    n = 40 if tier == "thorough" else 8
     for i in range(n):
         spec = L.gen_spec(rnd.randrange(1 << 30), size=rnd.choice((1, 1, 2)), depth=3)
         style = L.Style(rnd.randrange(1, 1000))
@@ -166,13 +166,13 @@ def run_case(recipe):
                 "%s in %s (%s file): grammar reports %d lexer + %d parser errors, compile() returned a specification with "
                 "%d assets / %d associations" % (how, mutated, where, lex_err, parse_err, n_assets,
                                                  len(out.get("associations", [])) if isinstance(out, dict) else -1),
-                "%s:%s:%s" % (_kind(how), where, cls))
+                cls)
         r.nontrivial_key = hashlib.sha256(files[mutated].encode()).hexdigest()[:14]
     elif not consumed:
         r.check("C17.rejects-unparsed-tail", raised is not None, FN,
                 "%s in %s (%s file): the parser stops before the end of the file without reporting an error; compile() "
                 "returned a specification built from the prefix" % (how, mutated, where),
-                "%s:%s:silent-stop" % (_kind(how), where))
+                "silent-stop")
         r.nontrivial_key = hashlib.sha256(files[mutated].encode()).hexdigest()[:14]
     return r
 
